@@ -1,6 +1,6 @@
 (* C15 — renaming is harmless and emitted names are hygienic: the name generator.  Property theorems only. *)
 From Coq Require Import List NArith Bool String Ascii.
-From RV Require Import Wire NameGen NameGenProofs GenNames Scopes ScopesProofs.
+From RV Require Import Wire NameGen NameGenProofs GenNames Scopes ScopesProofs TargetWords TargetWordsProofs.
 Import ListNotations.
 Local Open Scope string_scope.
 
@@ -15,6 +15,17 @@ Definition is_ident (s : string) : bool :=
 Theorem C15_reserved_lists_well_formed :
   forallb is_ident hlsl_reserved = true /\ forallb is_ident msl_reserved = true.
 Proof. split; vm_compute; reflexivity. Qed.
+
+(* ---- table obligation: every word this development knows to be a keyword or built-in name of a target (the reviewed
+        lists of model/TargetWords.v, not taken from /repo) is an entry of that exporter's reserved list, which the
+        theorems below show no emitted managed name can equal ---- *)
+Theorem C15_target_words_are_reserved :
+  forallb (listed hlsl_reserved) hlsl_target_words = true /\ forallb (listed msl_reserved) msl_target_words = true.
+Proof. split; vm_compute; reflexivity. Qed.
+
+Theorem C15_target_words_reserved_each :
+  (forall w, In w hlsl_target_words -> In w hlsl_reserved) /\ (forall w, In w msl_target_words -> In w msl_reserved).
+Proof. exact (conj (listed_all_in _ _ (proj1 C15_target_words_are_reserved)) (listed_all_in _ _ (proj2 C15_target_words_are_reserved))). Qed.
 
 (* ---- for every reserved list and every scope (any number of symbols, names and overloads) ---- *)
 
@@ -80,6 +91,8 @@ Example C15_example :
 Proof. vm_compute. reflexivity. Qed.
 
 Print Assumptions C15_reserved_lists_well_formed.
+Print Assumptions C15_target_words_are_reserved.
+Print Assumptions C15_target_words_reserved_each.
 Print Assumptions C15_build_total.
 Print Assumptions C15_scope_hygiene.
 Print Assumptions C15_locals_avoid_reserved_and_generated.
